@@ -51,6 +51,48 @@ def congruence_lemmas(pc, terms, timeout_ms, depth=0, cache=None):
             if ok: lemmas.append(a1 == a2)
     return lemmas
 
+def _ground_int_args(terms, fnames):
+    """ground Int terms occurring as arguments of the given function symbols (E-matching style instantiation candidates)"""
+    out = {}; seen = set()
+    def rec(t, bound):
+        if t.get_id() in seen: return
+        seen.add(t.get_id())
+        if z3.is_quantifier(t): return
+        if z3.is_app(t):
+            if t.decl().name() in fnames:
+                for a in t.children():
+                    if z3.is_int(a) and not _has_var(a): out[a.sexpr()] = a
+            for ch in t.children(): rec(ch, bound)
+    for t in terms: rec(t, False)
+    return list(out.values())
+def _has_var(t):
+    if z3.is_var(t): return True
+    return any(_has_var(c) for c in t.children())
+def _fnames(t, acc):
+    if z3.is_app(t):
+        if t.decl().kind() == z3.Z3_OP_UNINTERPRETED and t.num_args() > 0: acc.add(t.decl().name())
+        for ch in t.children(): _fnames(ch, acc)
+    elif z3.is_quantifier(t): _fnames(t.body(), acc)
+def instantiate_hyps(pc, goal):
+    """instances of the single-variable universally quantified hypotheses (loop invariants such as 'no earlier stop') at the
+    ground integer terms the goal applies the same function symbols to, and at its Skolem constants.  Instances are implied
+    by the hypotheses, so adding them is sound; the quantified hypotheses themselves stay in the path condition."""
+    inst = []
+    qs = [p for p in pc if z3.is_quantifier(p) and p.is_forall() and p.num_vars() == 1 and p.var_sort(0) == z3.IntSort()]
+    if not qs: return inst
+    sk = {}
+    def consts(t):
+        if z3.is_const(t) and t.decl().kind() == z3.Z3_OP_UNINTERPRETED and z3.is_int(t) and "!" in t.decl().name(): sk[t.sexpr()] = t
+        for ch in t.children(): consts(ch)
+    consts(goal)
+    for qf in qs:
+        fn = set(); _fnames(qf.body(), fn)
+        cands = {t.sexpr(): t for t in _ground_int_args([goal] + [p for p in pc if not z3.is_quantifier(p)], fn)}
+        cands.update(sk)
+        for t in list(cands.values())[:24]:
+            inst.append(z3.substitute_vars(qf.body(), t))
+    return inst
+
 def prove(pc, goal, timeout_ms=10000, axioms=True):
     """pc: list of z3 Bool; goal: z3 Bool. Returns Verdict.
     Proof attempt uses congruence lemmas + (quantified) defining axioms of reductions.
@@ -59,6 +101,7 @@ def prove(pc, goal, timeout_ms=10000, axioms=True):
     t0 = time.time()
     goal = toz3(goal); pc = [toz3(p) for p in pc]
     if z3.is_true(z3.simplify(goal)): return Verdict("proved", "trivial", time.time() - t0)
+    pc = pc + instantiate_hyps(pc, goal)
     r0, _ = _check(pc, goal, min(timeout_ms, 3000))                 # fast path: no lemmas needed
     if r0 == z3.unsat: return Verdict("proved", "z3", time.time() - t0)
     apps0 = R.collect_deep(pc + [goal])
